@@ -382,6 +382,25 @@ def random_cases(g, count):
 EMPTY = {x: [] for x in METHODS}
 
 
+def many_particle_cases(g):
+    """Particle corrections on sets larger than any plausible internal block (513 .. 2049 particles), with the
+    unavailability signalled at the 2nd / 3rd / 5th call of each method inside ONE correct() while the earlier calls
+    succeed: a correction that evaluates the likelihood block by block must still hand back the untouched predicted
+    set.  (On the current code each method is called once per correction, so the later script entries are not
+    consulted; whatever the implementation consults is judged from its own call log.)"""
+    r = g.r
+    cases = []
+    for cls in ["bootg", "boots"] + ["gpf-%s-%s" % (w, l) for w in ("kf", "ukfa") for l in "gs"]:
+        for k in (513, 1025, 2049) if cls.startswith("boot") else (513, 1025):
+            for mth in METHODS[1:]:
+                for at in (1, 2, 4):
+                    sc = dict(EMPTY)
+                    sc[mth] = [True] * at + [False]
+                    n, m = r.randint(1, 2), r.randint(1, 2)
+                    cases.append((mkline(cls, r.randint(0, 99999), n, m, k, 1, sc), {"style": "many-particles", "cls": cls}))
+    return cases
+
+
 def epoch_cases(g, variants):
     """State-based scripts on ONE object: during call i the methods in e_i are unavailable however often -- or whether
     at all -- they are asked.  Every all-valid call followed by every failing subset; two successes then a failure;
@@ -464,6 +483,7 @@ def run(ctx):
         cases += exhaustive_cases(ctx.gen("fault-exh"), ctx.n(3, 6))
         cases += sequence_cases(ctx.gen("fault-seq"))
         cases += epoch_cases(ctx.gen("fault-epoch"), ctx.n(2, 4))
+        cases += many_particle_cases(ctx.gen("fault-many"))
         cases += random_cases(ctx.gen("fault-rnd"), ctx.n(4000, 30000))
     lines = [c[0] for c in cases]
     hout, logs = vlib.run_harness(binary, lines)
